@@ -356,9 +356,9 @@ class NSGCoordinator(GameCoordinator):
         # self._networks
         new_self_networks = {}
         for net, ips in self._networks.items():
-            new_self_networks[mapping_nets[net]] = set()
+            new_self_networks[mapping_nets[net]] = []
             for ip in ips:
-                new_self_networks[mapping_nets[net]].add(mapping_ips[ip])
+                new_self_networks[mapping_nets[net]].append(mapping_ips[ip])
         self._networks = new_self_networks
         
         #self._firewall
